@@ -750,9 +750,19 @@ impl AbstractSyntaxTree for Function {
                 .map(|aliased| scope.resolve(aliased).with_span(from))
                 .transpose()?
                 .unwrap_or_else(ResolvedType::unit);
+            // Parameter names must be unique, like the variables of any other pattern.
+            let params_pattern = Pattern::tuple(
+                params
+                    .iter()
+                    .map(FunctionParam::identifier)
+                    .cloned()
+                    .map(Pattern::Identifier),
+            );
+            let params_ty = ResolvedType::tuple(params.iter().map(FunctionParam::ty).cloned());
+            let typed_params = params_pattern.is_of_type(&params_ty).with_span(from)?;
             scope.push_scope();
-            for param in params.iter() {
-                scope.insert_variable(param.identifier().clone(), param.ty().clone());
+            for (identifier, ty) in typed_params {
+                scope.insert_variable(identifier, ty);
             }
             let body = Expression::analyze(from.body(), &ret, scope).map(Arc::new)?;
             scope.pop_scope();
